@@ -16,7 +16,9 @@ RULE = ("Hypothesis draws histories (<=30 calls) of store_metadata / retrieve_me
         "stream. Oracle: a map (pid, resolved format) -> bytes maintained from the calls; retrieve "
         "returns exactly the last stored bytes or raises ValueError; deletes remove exactly their "
         "keys; deleting the absent is silent; after every call the metadata tree on disk equals the "
-        "image of the map (independent path computation) and metadata/tmp is empty. Non-trivial = >=2 "
+        "image of the map (independent path computation) and metadata/tmp is empty. One third of the cases run "
+        "on a simulated file system with coarse (1 h) timestamp granularity (stat results truncated at the OS "
+        "boundary). Non-trivial = >=2 "
         "(pid, format) pairs alive at once and >=1 overwrite, delete-all or delete_object; distinct key "
         "= sequence of (op, pid, format class, outcome).")
 ASSUMPTIONS = ["single thread", "format ids are non-empty strings without whitespace, or omitted"]
@@ -43,7 +45,9 @@ def _case(draw, tier):
         (3, ops.delete_op(PIDS)),
         (1, ops.REOPEN))
     return {"cfg": cfg, "contents": [{"hex": "6f31"}, {"hex": "6f32"}], "docs": docs,
-            "ops": draw(st.lists(op, min_size=2, max_size=30))}
+            "ops": draw(st.lists(op, min_size=2, max_size=30)),
+            # environment variant: a file system with coarse (1 hour) timestamp granularity
+            "coarse_mtime": draw(st.sampled_from([False, False, True]))}
 
 
 def strategy(tier):
@@ -51,7 +55,17 @@ def strategy(tier):
 
 
 def run_case(case, ctx):
+    from .. import fsi
     run = seq.Run(case, ctx)
+    if case.get("coarse_mtime"):
+        with fsi.active(run.root, lambda ev: None) as fctx:
+            fctx.stat_filter = fsi.coarse_mtime_filter(3600)
+            ctx.classify("coarse-timestamp-file-system")
+            return _run(case, ctx, run)
+    return _run(case, ctx, run)
+
+
+def _run(case, ctx, run):
     cfg = run.cfg
     meta = {}        # (pid, resolved fmt) -> bytes
     bound = set()    # pids with a successful store_object and no delete attempt since
